@@ -114,7 +114,7 @@ def finish(result, cand, dest, meta, wt, keep):
         d = os.path.join(VERIF, "seeded", dest)
         os.makedirs(d, exist_ok=True)
         for f in ("patch.diff", "demo_test.go", "demo.sh"):
-            if os.path.exists(os.path.join(cand, f)):
+            if os.path.exists(os.path.join(cand, f)) and os.path.abspath(os.path.join(cand, f)) != os.path.abspath(os.path.join(d, f)):
                 shutil.copy(os.path.join(cand, f), os.path.join(d, f))
         meta = dict(meta)
         meta["verification"] = result
